@@ -40,6 +40,6 @@ package pbutil
 // The in-memory entry points hand the decoder the contents exactly as given (binary protobuf is not text: no
 // trimming, no re-encoding) under the path that was given.
 //@ func FromPBStringContents
-//@   assert @call:pbutil.fromPBContents [contents-passed-on-untouched] arg0 == pbPath && unboxs(arg1) == contents
+//@   assert @call:pbutil.fromPBContents [contents-passed-on-untouched] arg0 == old(pbPath) && unboxs(arg1) == old(contents)
 //@ func FromPBStringContents$1
 //@   ensures [bytes-of-the-string] len(result) == len(unboxs(cont))
